@@ -72,6 +72,14 @@ F34 = ("F34 sliver simplices left behind by a point inserted within 1e-7 (baryce
 F35 = ("F35 Triangulation.locate_point: fast_2d_point_in_simplex divides by the simplex area computed from untranslated "
        "coordinates; for a sliver simplex far from the origin the area evaluates to 0.0 and add_point raises "
        "ZeroDivisionError")
+F36 = ("F36 add_point of a duplicate of an existing vertex with the empty hint simplex=() is accepted by _extend_hull (that "
+       "path has no duplicate test) when sliver simplices left by a point within 1e-7 of a hull facet make hull faces "
+       "visible from the vertex itself: the original vertex is orphaned")
+# candidate (not listed by this module): the duplicate test of add_point only looks at the LOCATED simplex
+F37 = ("F37 add_point of a duplicate of an existing vertex (hint None or a simplex) is accepted after a point within 1e-7 of "
+       "a hull facet was inserted: the vertex hangs on a facet of, or lies within the 1e-8 location tolerance of, a simplex "
+       "that does not have it; locate_point returns that simplex and the duplicate test (the reduced simplex is a single "
+       "vertex) never sees the vertex: the point is a vertex twice")
 
 FRAGILE = {"circ": 1e-11, "orient": 1e-9, "flat": 1e-3, "reduce": 1e-11, "locate": 1e-11}
 
@@ -483,7 +491,31 @@ def drive(d, init_pts, T, family, rng=None, nins=0, inserts=None, volume_every_s
         except Exception as e:  # noqa: BLE001
             orc.err("state_unreadable", f"inspecting the predicates of add_point ({out}) raised "
                                         f"{type(e).__name__}: {str(e)[:80]}", k)
-        orc.after_step(tri, before, out, ret, k, volume=volume_every_step or k == len(todo) - 1, rec=a)
+        dup_of = None
+        if out == "Accepted":
+            dup_of = next((i for i, q in enumerate(before[0]) if tuple(float(x) for x in q) == tuple(float(x) for x in p)), None)
+        if dup_of is not None:
+            # C03: "a rejected insertion (duplicate point) leaves the triangulation unchanged" presupposes that a duplicate
+            # IS rejected.  Attributed to F36 only on a history with a gap insertion (its trigger); the case ends here.
+            orphans = [v for v, ss in enumerate(tri.vertex_to_simplices) if not ss]
+            msg = (f"add_point({p}, simplex={hint}) was accepted although the point equals vertex {dup_of}: the vertex list "
+                   f"now holds it twice (new vertex {len(before[0])}); vertices without a simplex afterwards: {orphans}")
+            orc.raw.append(("duplicate_accepted", k))
+            if orc.hanging is not None:       # DESIGN 4.7: the object was no valid triangulation any more
+                sig, msg = F31, (f"{msg}; at step {orc.hanging[0]} bowyer_watson suppressed the flat simplex over the cavity "
+                                 f"facet {orc.hanging[1]} which is shared with a surviving simplex")
+            elif orc.tolerated is not None:
+                sig, msg = F32, (f"{msg}; at step {orc.tolerated[0]} point_in_cicumcircle accepted simplex {orc.tolerated[1]} "
+                                 f"whose circumsphere does not contain the point (within 1e-8)")
+            elif orc.near_degenerate and hint is not None and len(hint) == 0:
+                sig = F36
+            elif orc.near_degenerate:
+                sig = F37
+            else:
+                sig = "duplicate_accepted"      # without a gap insertion: reported under its own name
+            orc.errors.append((sig, msg, k))
+        else:
+            orc.after_step(tri, before, out, ret, k, volume=volume_every_step or k == len(todo) - 1, rec=a)
         try:
             obs = observe(tri)
         except Exception as e:  # noqa: BLE001
@@ -495,7 +527,7 @@ def drive(d, init_pts, T, family, rng=None, nins=0, inserts=None, volume_every_s
                           "ret": None if ret is None else ({simp(s) for s in ret[0]}, {simp(s) for s in ret[1]}),
                           "obs": obs, "kind": kind, "hint_kind": hk,
                           "path": path_of(a, out)})
-        corrupt = any(c in BROKEN_OBJECT for c, _s in orc.raw[nraw:])
+        corrupt = dup_of is not None or any(c in BROKEN_OBJECT for c, _s in orc.raw[nraw:])
         if obs is None or corrupt or out not in ("Accepted", "OutsideSimplex", "AlreadyVertex", "InsideHull", "Broken"):
             break       # the object is no longer a triangulation: the rest of the history says nothing more
     general = False
